@@ -21,6 +21,7 @@ import XV.Driver.Safety
 import XV.Driver.Particle
 import XV.Driver.XsdValid
 import XV.Driver.Reader
+import XV.Driver.Hist
 open XV.Driver
 
 def main (args : List String) : IO UInt32 := do
@@ -63,5 +64,6 @@ def main (args : List String) : IO UInt32 := do
   | ["xsdcmspec"] => lineLoop stdin stdout XV.Driver.Particle.handleSpec; return 0
   | ["xsd"] => lineLoopS stdin stdout (none : Option XV.Spec.XsdValid.Schema) XV.Driver.XsdValid.handle; return 0
   | ["reader"] => lineLoop stdin stdout XV.Driver.Reader.handle; return 0
+  | ["hist"] => lineLoop stdin stdout XV.Driver.Hist.handle; return 0
   | ["utf8spec"] => lineLoop stdin stdout XV.Driver.Utf8.handleSpec; return 0
   | _ => IO.eprintln "usage: xvdriver <area>"; return 2
